@@ -13,6 +13,7 @@ R04.4  element segments place &<function use of functionIndices[k]> at <table of
        (decided in C06 R06.3 for defined and imported tables; here: the identifiers agree with the declarations)
        and the table/element initialiser runs exactly once on the instance being created in Instantiate *and* NewChild
        (shared with C06: a child instance with uninitialised tables cannot serve call_indirect)
+R04.8  an imported table / global is bound with resolve("<module>", "<field>") literals that denote exactly the import's names
 """
 import re
 
